@@ -19,6 +19,7 @@ SOFT = {11: 'state outside the modelled fragment', 12: 'initial state does not s
 TRUSTED = ['lxml parse/serialise (the abstraction walks etree.fromstring(table.serialize()))',
            're._parser (the structure of _RE_TABLE_NAME is read from the parsed pattern; any unexpected shape stops the check)',
            'str.isspace over all code points stands for the class removed by str.strip()',
+           'lxml refuses attribute values with characters outside the XML 1.0 Char production (Names2.xml_char): such names are rejected whatever odfdo checks',
            'specification of names: LibreOffice ScDocument::ValidTabName (+ no line break); range names: letters, digits, _ only, '
            'not starting with a digit, not of A1 or R1C1 shape; non-ASCII characters are left to the application']
 MODELLED = ('the raw child list of table:table (columns, rows, cells with their repeat attribute strings); _set_repeated (attribute absent below 2), '
@@ -29,45 +30,66 @@ MODELLED = ('the raw child list of table:table (columns, rows, cells with their 
 from gen_names import read_classes, write_gen
 
 
-TAB_ALPHA = ['a', 'B', '1', '_', ' ', "'", '*', '?', ':', '/', '\\', '[', ']', '\n', 'é', '\t']
-NR_ALPHA = ['a', 'B', 'R', 'C', '1', '0', '_', ' ', '\x01', 'é', '-', '.']
-NAME_HEADER = ('Require Import Names Gen_Names.\nFrom Coq Require Import List NArith Bool. Import ListNotations. Open Scope N_scope.\n'
+# Alphabets: for every character class a rule is written with (digit, letter, alnum, space, printable, word character) ASCII
+# AND non-ASCII members: Arabic-Indic / fullwidth / non-BMP digits, non-BMP and upper/lower/titlecase non-ASCII letters,
+# a combining mark, NBSP and other Unicode blanks, a zero-width space (not a blank), a control character.
+NON_ASCII = ['\u0663', '\uff11', '\U0001d7d0', '\U0001d400', '\u00c9', '\u00e9', '\u01c5', '\u0301', '\u00a0', '\u2003', '\u3000', '\u0085',
+             '\u200b', '\x1f']
+TAB_ALPHA = ['a', 'B', '1', '_', ' ', "'", '*', '?', ':', '/', '\\', '[', ']', '\n', '\t'] + NON_ASCII
+NR_ALPHA = ['a', 'B', 'R', 'C', '1', '0', '_', ' ', '\x01', '-', '.'] + NON_ASCII
+TAB_CORE = ['a', '1', ' ', "'", '*', ':', '\n', '\u00e9', '\u0663', '\u00a0', '\u2003', '\u0301']
+NR_CORE = ['a', 'B', 'R', 'C', '1', '0', '_', ' ', '\u00e9', '\u0663', '\uff11', '\U0001d7d0', '\u00a0', '\u0301']
+BASE = ['a', '1', '_']
+NAME_HEADER = ('Require Import Names Names2 Gen_Names.\nFrom Coq Require Import List NArith Bool. Import ListNotations. Open Scope N_scope.\n'
                '(* (string, accepted by the implementation, name stored) : 1 = verdict differs from the specification, 2 = stored name is not strip(s), 9 = model differs *)\n'
                'Definition mkn (s : list N) (a : bool) (st : list N) := (s, a, st).\n'
                'Definition str_eqb (a b : list N) := Nat.eqb (length a) (length b) && forallb (fun p => fst p =? snd p) (combine a b).\n'
                'Definition chk_tab (c : list N * bool * list N) : nat := let \'(s, acc, stored) := c in\n'
-               '  if negb (Bool.eqb acc (lo_tab_name_ok gen_space s)) then 1%nat\n'
+               '  if negb (Bool.eqb acc (lo_tab_name_ok gen_space s && xml_chars_ok (strip gen_space s))) then 1%nat\n'
                '  else if acc && negb (str_eqb stored (strip gen_space s)) then 2%nat\n'
-               '  else if Bool.eqb acc (table_name_ok gen_fa gen_ff gen_fl gen_space s) then 0%nat else 9%nat.\n'
+               '  else if Bool.eqb acc (table_name_ok gen_fa gen_ff gen_fl gen_space s && xml_chars_ok (strip gen_space s)) then 0%nat else 9%nat.\n'
                'Definition chk_nr (c : list N * bool * list N) : nat := let \'(s, acc, stored) := c in\n'
-               '  if negb (Bool.eqb acc (lo_range_name_ok gen_space s)) then 1%nat\n'
+               '  if negb (Bool.eqb acc (lo_range_name_ok gen_space s && xml_chars_ok (strip gen_space s))) then 1%nat\n'
                '  else if acc && negb (str_eqb stored (strip gen_space s)) then 2%nat\n'
-               '  else if Bool.eqb acc (nr_name_ok_fixed gen_letters gen_digits gen_space s) then 0%nat else 9%nat.\n')
+               '  else if Bool.eqb acc (nr_rule_ok gen_space gen_nr_charrej gen_nr_firstrej gen_nr_shapes s && xml_chars_ok (strip gen_space s)) then 0%nat else 9%nat.\n')
 
 
 def c_str(s):
     return '[' + ';'.join(str(ord(ch)) for ch in s) + ']'
 
 
-def name_strings(alpha, maxlen, rng, extra, extralen):
-    out = []
-    for n in range(maxlen + 1):
-        out += [''.join(t) for t in itertools.product(alpha, repeat=n)]
+def name_strings(alpha, core, tier, rng, extra, extralen):
+    """every string of length <= 2 over the full alphabet; every member of the full alphabet at first / middle / last
+    position of a length-3 string (and after an ASCII letter: the shape rules) ; every string of length <= 3 (thorough: <= 4)
+    over the core alphabet; random longer ones"""
+    out, seen = [], set()
+
+    def add(s_):
+        if s_ not in seen:
+            seen.add(s_); out.append(s_)
+    for n in range(3):
+        for t in itertools.product(alpha, repeat=n): add(''.join(t))
+    for c in alpha:
+        for a in BASE:
+            for b in BASE:
+                add(c + a + b); add(a + c + b); add(a + b + c)
+        add('A' + c); add('AB' + c); add('A' + c + c); add('A1' + c); add('A' + c + '1'); add(c + c + c)
+    for n in range(3, (3 if tier == 'quick' else 4) + 1):
+        for t in itertools.product(core, repeat=n): add(''.join(t))
     for _ in range(extra):
-        out.append(''.join(rng.choice(alpha) for _ in range(rng.randint(maxlen + 1, extralen))))
+        add(''.join(rng.choice(alpha) for _ in range(rng.randint(3, extralen))))
     return out
 
 
 def names_phase(tier, rng, odfdo, known, only=None):
     import odfdo.table as T
     violations, known_seen, errors, cov = [], [], [], {}
-    for what, alpha, checker, maxlen in (('table-name', TAB_ALPHA, 'chk_tab', 3 if tier == 'quick' else 4),
-                                         ('named-range-name', NR_ALPHA, 'chk_nr', 3 if tier == 'quick' else 4)):
+    for what, alpha, core, checker in (('table-name', TAB_ALPHA, TAB_CORE, 'chk_tab'), ('named-range-name', NR_ALPHA, NR_CORE, 'chk_nr')):
         if only and only[0] != what:
             continue
-        strs = [only[1]] if only else name_strings(alpha, maxlen, rng, 1500 if tier == 'quick' else 20000, 7)
+        strs = [only[1]] if only else name_strings(alpha, core, tier, rng, 1500 if tier == 'quick' else 20000, 7)
         if what == 'named-range-name' and not only:
-            strs += ['R1C1', 'r10c2', 'R1C', 'RC1', 'AB12', 'A1', '1abc', '_1', 'a1b', 'R01C01', 'Rr1C1', ' R1C1 ', 'é1', 'R1C1_']
+            strs += ['R1C1', 'r10c2', 'R1C', 'RC1', 'AB12', 'A1', '1abc', '_1', 'a1b', 'R01C01', 'Rr1C1', ' R1C1 ', 'é1', 'R1C1_', 'AB\u0663', 'x\uff11', 'A\U0001d7d0', 'R\u0661C\u0661', 'AB1\u0663', '\u0663A']
         terms = []
         for s in strs:
             try:
@@ -82,7 +104,9 @@ def names_phase(tier, rng, odfdo, known, only=None):
         errors += errs
         hard = {k: c for k, c in bad.items() if c in (1, 2)}
         cov[what + '_strings'] = len(strs)
-        cov[what + '_rule'] = 'all strings of length <= %d over %r plus random longer ones' % (maxlen, alpha)
+        cov[what + '_rule'] = ('all strings of length <= 2 over %r (ASCII and non-ASCII members of every character class the rules use); each of these '
+                               'characters at first / middle / last position of a length-3 string and after ASCII letters / digits; all strings of length <= %d over '
+                               'the core alphabet %r; random longer ones' % (alpha, 3 if tier == 'quick' else 4, core))
         cov[what + '_disagreements'] = len(hard)
         cov[what + '_model_divergences'] = sum(1 for c in bad.values() if c == 9)
         if hard:
@@ -102,7 +126,7 @@ def names_phase(tier, rng, odfdo, known, only=None):
 
 def run(tier, seed, replay=None):
     return tr.run_table_check('C07', tier, seed, replay, 'chk07', LAYERS, SOFT, tl.OPS_CORE, extra=names_phase,
-                              prebuild=write_gen, extra_targets=('Tablechk', 'TableExtchk', 'Tablexml2chk', 'Gen_Names', 'Gen_Namesok'),
+                              prebuild=write_gen, extra_targets=('Tablechk', 'TableExtchk', 'Tablexml2chk', 'Names2proof', 'Gen_Names', 'Gen_Namesok'),
                               trusted=TRUSTED, modelled=MODELLED,
                               assumptions=['operations carry repeats >= 1 and integer coordinates of either sign',
                                            'tables consist of table:table-column elements followed by table:table-row elements',
